@@ -95,6 +95,13 @@ def c15_encode_then_decode_every_code_point():
     return r
 
 
+@ground("C07")
+def c07_encode_then_decode_every_code_point():
+    r = encode_then_decode_every_code_point()
+    r["id"] = r["id"].replace("C14/", "C07/")
+    return r
+
+
 @ground("C08")
 def c08_encode_then_decode_every_code_point():
     r = encode_then_decode_every_code_point()
